@@ -5,7 +5,9 @@
    reachable state of every interleaving of caller threads, the loop, Future.cancel(), stop() and the
    exit of start_blocking_portal(), within the configured bounds; plus implementation invariants.
 2. The same model restricted to environments that act at quiescent points (QStep) generates the
-   scenarios: maximal histories of environment choices (issue / cancel / release / exit).
+   scenarios: maximal histories of environment choices (issue / cancel / release / exit); one small
+   configuration exhaustively (all scenarios around a start_task() callable that waits before
+   started() and around stop / stop(cancel_remaining) - always replayed), a larger one sampled.
 3. Every scenario is performed on a real portal (asyncio loop and uvloop) by harness.c15_run
    (quiescent-step replay) and the recorded trace is validated by TLC against P_Portal (T_Portal).
 4. Witness runs: with the two races of the code switched on, TLC must find the known model-level
@@ -24,7 +26,10 @@ from . import core, tlc
 from . import replay as rp
 
 PROP = "C15"
-ALL = '{"sync", "ret", "fail", "block", "st", "stfail", "stop0", "stop1"}'
+ALL = '{"sync", "ret", "fail", "block", "st", "stw", "stfail", "stop0", "stop1", "stop01"}'
+# the kinds around a start_task() whose callable waits before started() and around repeated stops
+STW = '{"block", "stw", "stop1", "stop01"}'
+TLC_WORKERS = 6          # shared machine
 INVS = ["PropertyHolds", "TypeOK", "GroupJoined", "NoOrphanFuture", "NoHungThread"]
 
 ASSUME = [
@@ -36,7 +41,10 @@ ASSUME = [
     "future.cancelled() and future.set_result() in _call_func and stop() does not land between "
     "_check_running() and run_sync(); the races themselves are findings C15-A / C15-B "
     "(notes/finding_C15.md), shown by the witness runs",
-    "callables are the eight kinds of spec/P_Portal.tla; at most 4 calls, 3 caller threads per scenario",
+    "callables are the ten kinds of spec/P_Portal.tla; at most 4 calls, 3 caller threads per scenario",
+    "stop(cancel_remaining=True) after a plain stop() is exercised by one callable doing both (kind "
+    "'stop01'): a second stop CALL from a foreign thread is refused by the stopped portal (MaxStop = 2 "
+    "scenarios show exactly that)",
 ]
 
 
@@ -52,6 +60,7 @@ def model_plan(tier: str) -> list[dict]:
     tiny = '{"sync", "block", "stop1"}'
     plan = [
         dict(name="free-n1c2-tiny", c=consts(1, 2, tiny, 1, 1), mode="check", inv=INVS),
+        dict(name="free-n2c2-stw", c=consts(2, 2, '{"stw", "stop01"}', 1, 1), mode="check", inv=INVS),
         dict(name="free-n3c4-sim", c=consts(3, 4, ALL, 2, 2), mode="simulate", inv=INVS,
              num=500 if tier == "quick" else 20000),
     ]
@@ -71,10 +80,18 @@ def model_plan(tier: str) -> list[dict]:
 
 def scenario_plan(tier: str) -> list[dict]:
     strict = ["PropertyHoldsStrict", "NoCrash", "CancelAlwaysLands"] + INVS[1:]
+    # NT > 1: a "stw" call keeps its thread inside start_task(), further steps need another thread.
+    # q-c2-stw is exhaustive (all scenarios of two calls of the STW kinds, none dropped by the cap): it
+    # contains "stw; stop1 / stop01 / exit with exception while it waits", "stw; release" and
+    # "block; stop01" on every run.
+    targeted = dict(name="q-c2-stw", c=consts(2, 2, STW, 1, 1, qstep=True), mode="check", inv=strict,
+                    cap=10 ** 6)
     if tier == "quick":
-        return [dict(name="q-c4-sim", c=consts(1, 4, ALL, 1, 2, qstep=True), mode="simulate", inv=strict,
+        return [targeted,
+                dict(name="q-c4-sim", c=consts(3, 4, ALL, 2, 2, qstep=True), mode="simulate", inv=strict,
                      num=400, cap=250)]
-    return [dict(name="q-c4-sim", c=consts(1, 4, ALL, 2, 3, qstep=True), mode="simulate", inv=strict,
+    return [targeted,
+            dict(name="q-c4-sim", c=consts(3, 4, ALL, 2, 3, qstep=True), mode="simulate", inv=strict,
                  num=12000, cap=3000)]
 
 
@@ -100,7 +117,7 @@ def _run_model(rep: core.Report, m: dict, seed: int, cfgdir: Path, emit: bool) -
         r = tlc.run_tlc("MC_C15", p, workers=4, simulate=f"num={max(1, m['num'] // 4)}", depth=400,
                         seed=seed * 7919 + 17, tag=tag, keep_output=emit, timeout=3000)
     else:
-        r = tlc.run_tlc("MC_C15", p, workers=1 if emit else "auto", tag=tag, keep_output=emit,
+        r = tlc.run_tlc("MC_C15", p, workers=1 if emit else TLC_WORKERS, tag=tag, keep_output=emit,
                         timeout=3000)
     if r.violated:
         raise tlc.TLCError(f"model MC_C15/{m['name']} violates {r.violated}\n" + r.output[-3000:])
